@@ -374,7 +374,7 @@ known("KF-C09-05", "C09", SB, None, r"value-differs:.+", r"valid-doc:[a-z-]+:[a-
       'a key containing the byte 0xff is stored as U+FFFD by Decoder and raw by Unmarshal', "internal/decoder/string.go: only the stream string scanner replaces invalid UTF-8", "other value differences on documents that are not valid UTF-8", "the two scanners differ by design here")
 known("KF-C09-06", "C09", SB, None, r"verdict:stream-ok-buffer-err", r"valid-doc:[a-z-]+:buffer-error=.*:doc-has-u-escapes",
       'a struct member spelled with an escaped key and a wrong-kind value is silently skipped by Decoder where Unmarshal reports the type error', "see KF-C09-02 (escaped keys in stream mode)", "see KF-C09-02", "see KF-C09-02")
-known("KF-C09-07", "C09", SB, r"(struct|arrayN|slice|ptr\d>.*|map\[.*)", r"verdict:stream-err-buffer-ok", r"valid-doc:(single-cut|pair-of-cuts|fixed):[a-z/-]+:expected comma after object element",
+known("KF-C09-07", "C09", SB, r"(struct|arrayN|slice|ptr\d>.*|map\[.*)", r"verdict:stream-err-buffer-ok", r"valid-doc:[a-z-]+:[a-z/-]+:expected comma after object element",
       'a number that is the value of an unknown struct member and ends exactly at a refill boundary makes Decoder fail with "expected comma after object element"', "internal/decoder/stream.go skipValue number branch: after a refill the byte following the number is stepped over",
       "other stream-only errors with this message on typed destinations", "stream skip scanner")
 
